@@ -75,6 +75,11 @@ def instances(tier, seed):
             for local in ("arbitrary", "identity"):
                 out.append(dict(op="sweep", method=method, local=local, kinds=kinds, parents=list(par), counts=list(cnt),
                                 label="sweep %s local=%s parents=%s counts=%s" % (method, local, list(par), list(cnt)), key="sweep/%s" % method))
+    # bond dimension 1 (product states): the zero-site step of a 1 x 1 bond matrix is still a propagation (it carries the scalar factor exp(-+E tau/2))
+    for par, cnt in (((0, 0), (1, 1, 1)), ((0, 1), (1, 1, 1))):
+        for method in ("tdvp_ps", "tdvp_ps2"):
+            out.append(dict(op="sweep", method=method, local="arbitrary", sbond=1, kinds=kinds, parents=list(par), counts=list(cnt),
+                            label="sweep %s local=arbitrary bond dimension 1 parents=%s counts=%s" % (method, list(par), list(cnt)), key="sweep/%s/bond1" % method))
     # per-node bond limits in the two-site scheme: each bond must be truncated with the limit of ITS OWN node
     for par, cnt in ([((0, 0), (1, 1, 1)), ((0, 1), (1, 1, 1))] + ([((0, 1, 1), (1, 0, 1, 1))] if tier == "thorough" else [])):
         for caps in ("exact", "tight"):
@@ -509,7 +514,7 @@ def h_sweep(ctx, P):
     from renormalizer.utils import EvolveConfig, EvolveMethod, CompressConfig, CompressCriteria
     from symnum import stubs
     tree, nodes = treelib.build_basis_tree(P["parents"], P["counts"], tuple(P["kinds"]))
-    a = treelib.build_ttns(ctx, "a", tree, 2)
+    a = treelib.build_ttns(ctx, "a", tree, P.get("sbond", 2))
     o = c11.sym_ttno(ctx, "o", tree, 2)
     O = treelib.dense_ttno(o)
     va = treelib.dense_ttns(a)
